@@ -60,8 +60,9 @@ Cfgs == <<
    C0(<<[A0(97, K_al, "dbl") EXCEPT !.init = 10], A0(118, K_val, "dbl"), A0(98, <<>>, "flag")>>, <<H("differ", <<1, 2>>)>>, TRUE),
    \* 14: level counters (optional value mode): plain with an upper limit, and one that allows mixing increment and set
    C0(<<[A0(118, K_val, "level") EXCEPT !.checks = <<Ck("upper", 3, 0)>>], [A0(110, K_num, "level") EXCEPT !.mix = TRUE, !.init = 7], A0(97, K_al, "flag")>>, <<>>, TRUE),
-   \* 15: multi-value vector ended by --endvalues, positional string
-   [C0(<<[A0(118, K_val, "vecint") EXCEPT !.multi = TRUE], A0(97, <<101, 110>>, "flag")>>, <<>>, TRUE) EXCEPT !.endvalues = TRUE],
+   \* 15: multi-value vector ended by --endvalues (the long key "en" of the flag is a prefix of the standard key), positional string
+   [C0(<<[A0(118, K_val, "vecint") EXCEPT !.multi = TRUE], A0(97, <<101, 110>>, "flag"),
+         [A0(0, <<>>, "str") EXCEPT !.pos = TRUE, !.card = [t |-> "none", a |-> 0, b |-> 0]]>>, <<>>, TRUE) EXCEPT !.endvalues = TRUE],
    \* 16: multi-value string vector, a flag and a positional string: which argument gets a free value
    C0(<<[A0(118, K_val, "vecstr") EXCEPT !.multi = TRUE], A0(97, K_al, "flag"), [A0(0, <<>>, "str") EXCEPT !.pos = TRUE, !.card = [t |-> "none", a |-> 0, b |-> 0]]>>, <<>>, TRUE),
    \* 17: growing bit sets: vector<bool> of initial size 1 (bit 0 set), DynamicBitset with clear-before-assign
@@ -93,13 +94,20 @@ Cfgs == <<
    \* 24: keyed command-mode argument x/exec (at most 7 characters) behind a flag and an int
    C0(<<A0(97, K_al, "flag"), A0(110, K_num, "int"), [CMD(120, K_exec) EXCEPT !.checks = <<Ck("maxlen", 7, 0)>>]>>, <<>>, TRUE),
    \* 25: positional command-mode argument, a flag and a mandatory int
-   C0(<<A0(97, K_al, "flag"), [A0(110, K_num, "int") EXCEPT !.mand = TRUE], [CMD(0, <<>>) EXCEPT !.pos = TRUE]>>, <<>>, TRUE)
+   C0(<<A0(97, K_al, "flag"), [A0(110, K_num, "int") EXCEPT !.mand = TRUE], [CMD(0, <<>>) EXCEPT !.pos = TRUE]>>, <<>>, TRUE),
+   \* 26: differ over three int arguments (equal values on the first and the third with the second unused)
+   C0(<<A0(97, <<>>, "int"), A0(98, <<>>, "int"), A0(99, <<>>, "int")>>, <<H("differ", <<1, 2, 3>>)>>, TRUE),
+   \* 27: string vectors with a format and unique data: the formatted element is the one that counts (upper case, sorted / duplicates
+   \*     dropped; lower case / duplicates refused, "x" is there from the start)
+   C0(<<[A0(118, K_val, "vecstr") EXCEPT !.formats = <<"upper">>, !.uniq = "ignore", !.sort = TRUE],
+        [A0(110, K_num, "vecstr") EXCEPT !.formats = <<"lower">>, !.uniq = "error", !.init = <<<<120>>>>]>>, <<>>, TRUE)
 >>
 Sel == IF CfgSel = {} THEN 1..Len(Cfgs) ELSE CfgSel
 Cfg == Cfgs[ci]
 
 IntPool == {<<48>>, <<55>>, <<45, 51>>, <<120>>, <<49, 50>>}          \* "0" "7" "-3" "x" "12"
-StrPool == {<<120>>, <<97, 98>>, <<45, 121>>, <<88, 121, 122>>}        \* "x" "ab" "-y" "Xyz"
+StrPool == {<<120>>, <<97, 98>>, <<45, 121>>, <<88, 121, 122>>, <<>>}  \* "x" "ab" "-y" "Xyz" and the empty text
+CasePool == {<<120>>, <<88>>, <<97, 98>>}                              \* "x" "X" "ab": equal after a case format
 \* positions are unsigned: negative numbers are outside the documented domain (ArgEval leaves them open) and not generated
 BitPool == {<<48>>, <<49>>, <<49, 50>>, <<120>>, <<55>>}     \* "0" "1" "12" "x" "7"
 MapPool == {<<97, 44, 49>>, <<98, 44, 50>>, <<97, 44, 55>>, <<97, 44, 120>>, <<97>>, <<44, 49>>, <<99, 44>>}   \* "a,1" "b,2" "a,7" "a,x" "a" ",1" "c,"
@@ -114,6 +122,7 @@ ValChoices(arg) ==
    ELSE IF arg.kind = "level" THEN {<<>>, <<<<50>>>>, <<<<55>>>>, <<<<120>>>>}
    ELSE IF arg.kind = "dbl" THEN {<<v>> : v \in {<<50, 46, 53>>, <<45, 48, 46, 50, 53>>, <<51>>, <<120>>, <<49, 46, 55, 53>>, <<49, 46, 51>>}}   \* "2.5" "-0.25" "3" "x" "1.75" "1.3"
    ELSE IF arg.kind = "tup" THEN {<<<<55>>, <<97, 98>>, <<45, 51>>>>, <<<<48>>, <<120>>, <<120>>>>, <<<<55>>, <<120>>>>, <<<<48>>>>, <<<<55>>, <<120>>, <<48>>, <<55>>>>}
+   ELSE IF arg.kind = "vecstr" /\ Len(arg.formats) > 0 THEN {<<v>> : v \in CasePool} \cup {<<v, w>> : v, w \in CasePool}
    ELSE IF IsContainer(arg.kind) THEN {<<v>> : v \in IntPool \ {<<49, 50>>}} \cup {<<v, w>> : v, w \in {<<48>>, <<55>>, <<45, 51>>}}
    ELSE IF ElemIsInt(arg.kind) THEN {<<v>> : v \in IntPool}
    ELSE {<<v>> : v \in StrPool}
@@ -127,7 +136,8 @@ FirstVal(arg) == IF arg.kind \in {"int", "vecint"} THEN <<<<55>>>> ELSE IF arg.k
 SubUses(sc) == UNION {{[a |-> a, vals |-> vs] : vs \in SubValChoices(sc.args[a])} : a \in 1..NArgs(sc)}
 SubUses1(sc) == {[a |-> a, vals |-> FirstVal(sc.args[a])] : a \in 1..NArgs(sc)}
 SubLines(sc) == {<<>>} \cup {<<u>> : u \in SubUses(sc)} \cup {<<u, w>> : u, w \in SubUses1(sc)}
-UseSet(cfg) == UNION {IF IsSub(cfg.args[a]) THEN {[a |-> a, vals |-> <<>>, sub |-> L] : L \in SubLines(cfg.args[a].sub)}
+\* configurations with the standard argument --endvalues: the marker (a = 0) is a use like any other
+UseSet(cfg) == (IF cfg.endvalues THEN {[a |-> 0, vals |-> <<>>]} ELSE {}) \cup UNION {IF IsSub(cfg.args[a]) THEN {[a |-> a, vals |-> <<>>, sub |-> L] : L \in SubLines(cfg.args[a].sub)}
                       ELSE {[a |-> a, vals |-> vs] : vs \in ValChoices(cfg.args[a])} : a \in 1..NArgs(cfg)}
 Lines(cfg) == UNION {[1..n -> UseSet(cfg)] : n \in 0..MaxUses}
 
